@@ -20,7 +20,7 @@ ID = 'C12'
 LEVEL = 'exploration'
 WORKERS = {'quick': 10, 'thorough': 14}
 BUDGET_S = {'quick': 90, 'thorough': 600}
-REQUIRED_COUNTERS = ['perm_twins', 'superset_twins', 'foreign_twins', 'auto_sets_checked', 'hostile_values_fed', 'per_class_rows_compared', 'oracle_entries', 'partial_twins', 'per_word_twins']
+REQUIRED_COUNTERS = ['perm_twins', 'superset_twins', 'foreign_twins', 'auto_sets_checked', 'hostile_values_fed', 'per_class_rows_compared', 'oracle_entries', 'partial_twins', 'per_word_twins', 'many_class_twins', 'lookalike_analyses', 'template_dpa_gap_cases']
 RULE = ('a case = (subject in anova|nicv|snr|mia|tbuild|tstatic|tdpa, relation perm|superset|foreign|auto, class list with gaps and values '
         'up to 2^17-1, data dtype among the six supported integer dtypes, undeclared values drawn over the whole dtype range incl. negatives, '
         '>= 2^17 and the dtype maximum, first-batch maxima on both sides of 0/9/64/255, precision, sub-seed); non-trivial = a twin pair or '
@@ -59,6 +59,14 @@ def cases(tier, seed):
     for name in ('anova', 'nicv', 'snr', 'mia'):
         for r in range(2):
             out.append(dict(gen='rel', subject=name, rel='partial', sub=core.subseed('C12p', seed, name, r), must=True))
+    # class lists longer than 2^15 / 2^16 entries (legal: any subset of [0, 2^17)), with the values used sitting beyond those positions
+    for j, (name, kbig) in enumerate((('snr', 40000), ('anova', 70000), ('nicv', 131072), ('mia', 40000))):
+        out.append(dict(gen='many', subject=name, kbig=kbig, sub=core.subseed('C12many', seed, j), must=True))
+    # several analyses in one process whose class arrays have the same raw bytes under different integer widths
+    for j in range(2 if tier == 'quick' else 30):
+        out.append(dict(gen='lookalike', sub=core.subseed('C12look', seed, j), must=True))
+    for j in range(3 if tier == 'quick' else 40):
+        out.append(dict(gen='tdpa_gap', sub=core.subseed('C12gap', seed, j), must=True))
     rs = np.random.default_rng(core.subseed('C12r', seed))
     n_rand = 250 if tier == 'quick' else 6000
     for j in range(n_rand):
@@ -116,11 +124,157 @@ def _run(spec, traces, data, sizes, kseq=None):
         return obj, subjects.results(obj, spec)
 
 
+def _many_classes(t, case, rng):
+    """A class list with tens of thousands of entries; the few values present in the data sit at positions on both sides of
+    2^15 and 2^16. The result must be the one obtained when only the values present are declared (unused classes change nothing),
+    and every trace must be counted."""
+    name, kbig = case['subject'], int(case['kbig'])
+    prec = 'float64'
+    declared = rng.permutation(2 ** 17)[:kbig].astype('int64') if kbig < 2 ** 17 else rng.permutation(2 ** 17).astype('int64')
+    if rng.random() < 0.5:
+        declared = np.sort(declared)
+    positions = sorted({0, 1, 32767, 32768, 32769, kbig - 1, int(rng.integers(32768, kbig)), int(rng.integers(32768, kbig))} | ({65535, 65536, 65537, int(rng.integers(65536, kbig))} if kbig > 65537 else set()))
+    used = [int(declared[i]) for i in positions]
+    n, T, W = 60 * len(used) // 4, int(rng.integers(1, 4)), int(rng.integers(1, 3))
+    data = rng.choice(used, (n, W)).astype('uint32' if rng.random() < 0.5 else 'int32')
+    shift = {v: 3 * i for i, v in enumerate(used)}
+    traces = (rng.integers(0, 6, (n, T)) + np.array([[shift[int(v)]] * T for v in data[:, 0]])).astype('int16')
+    spec = dict(name=name, precision=prec, partitions=[int(v) for v in declared])
+    as_array = bool(rng.random() < 0.5)
+    if as_array:
+        spec['partitions_as'] = 'int64' if rng.random() < 0.5 else 'uint32'
+    if name == 'mia':
+        spec['bin_edges'] = np.linspace(-1, 60, 6).tolist()
+    sizes = gen.split_sizes(rng, n, kmax=3)
+    info = dict(case=case, classes=kbig, positions_used=positions, n=n, T=T, W=W, sizes=sizes, class_list_as=spec.get('partitions_as', 'list'))
+    obj, res = _run(spec, traces, data, sizes)
+    small = dict(spec, partitions=used)
+    small.pop('partitions_as', None)
+    obj2, res2 = _run(small, traces, data, sizes)
+    t.count('many_class_twins')
+    t.count('superset_twins')
+    if name != 'mia':
+        cnt = np.asarray(obj.counters)
+        t.check(float(cnt.sum()) == float(n * W), 'declared_value_not_counted_in_its_class', lambda: dict(info, counted=float(cnt.sum()), expected=n * W))
+        for j, pos in enumerate(positions):
+            for w in range(W):
+                exp = int((data[:, w] == used[j]).sum())
+                t.count('per_class_rows_compared')
+                t.check(int(cnt[w, pos]) == exp, 'declared_value_not_counted_in_its_class', lambda: dict(info, class_position=pos, class_value=used[j], word=w, counted=int(cnt[w, pos]), expected=exp))
+    for (la, a), (lb, b) in zip(res, res2):
+        a_, b_ = np.asarray(a, dtype=float), np.asarray(b, dtype=float)
+        ok = a_.shape == b_.shape and bool(np.array_equal(np.isnan(a_), np.isnan(b_))) and bool(np.all(np.abs(np.nan_to_num(a_) - np.nan_to_num(b_)) <= 1e-9 * (1 + np.abs(np.nan_to_num(b_)))))
+        t.check(ok, 'unused_class_value_changes_result', lambda: dict(info, label=la, diff=tol.first_diff(a_, b_)))
+    if name in ('anova', 'nicv', 'snr'):
+        val, scale, undef = oracles.partitioned(name, traces, data, used)
+        got = np.asarray(res[0][1], dtype=float)
+        dec = ~undef
+        t.count('oracle_entries', int(dec.sum()))
+        tol.compare_tol(t, np.where(dec, got, 0), np.where(dec, val, 0), tol.C_E * len(used) * tol.eps_of(prec) * scale, 'result_differs_from_by_value_definition', info, undecidable_above=tol.UNDECIDABLE_E)
+    if name == 'mia':
+        val, _ = oracles.mutual_information(traces, data, used, spec['bin_edges'])
+        got = np.asarray(res[0][1], dtype=float)
+        t.count('oracle_entries', int(val.size))
+        t.check(got.shape == val.shape and not (np.abs(got - val) > 1e-9 * (1 + np.abs(val))).any(), 'mia_differs_from_by_value_definition', lambda: dict(info, got=got.tolist()[:2], expected=val.tolist()[:2]))
+    return t.result(sig=f"many|{name}|{kbig}|{n}x{T}x{W}", sample=dict(info, comparisons=t.checks))
+
+
+def _lookalike(t, case, rng):
+    """Analyses created one after the other in one process with class arrays that look alike to anything keyed on their memory:
+    the same raw bytes read as 8-bit or 16-bit values, the same values under several widths, the same array object refilled."""
+    nb = 2 * int(rng.integers(1, 4))
+    raw = rng.permutation(np.arange(1, 200))[:nb].astype('uint8')
+    if rng.random() < 0.5:
+        raw = np.array([1, 2, 3, 4, 5, 6][:nb], dtype='uint8')
+    variants = [('uint8', raw.copy()), ('<u2', raw.view('<u2').copy()), ('<i2', raw.view('<u2').astype('<i2')), ('list_of_bytes', [int(v) for v in raw]), ('list_of_words', [int(v) for v in raw.view('<u2')]),
+                ('int32_bytes', raw.astype('int32')), ('int64_words', raw.view('<u2').astype('int64'))]
+    order = [variants[i] for i in rng.permutation(len(variants))]
+    order = order + [order[0]]
+    n, T = 120, int(rng.integers(1, 4))
+    pool = sorted(set(int(v) for v in raw) | set(int(v) for v in raw.view('<u2')))
+    data = rng.choice(pool, (n, 1)).astype('uint16')
+    shift = {v: 2 * i for i, v in enumerate(pool)}
+    traces = (rng.integers(0, 5, (n, T)) + np.array([[shift[int(v)]] * T for v in data[:, 0]])).astype('int16')
+    names = ['snr', 'anova', 'nicv']
+    log = []
+    for label, parts in order:
+        name = names[int(rng.integers(3))]
+        vals = [int(v) for v in (parts.tolist() if isinstance(parts, np.ndarray) else parts)]
+        import scared
+        klass = dict(anova=scared.ANOVADistinguisher, nicv=scared.NICVDistinguisher, snr=scared.SNRDistinguisher)[name]
+        obj = klass(partitions=parts, precision='float64')
+        obj.update(traces[:70], data[:70])
+        obj.update(traces[70:], data[70:])
+        with np.errstate(all='ignore'):
+            got = np.asarray(obj.compute(), dtype=float)
+        log.append(f'{name}:{label}')
+        val, scale, undef = oracles.partitioned(name, traces, data, vals)
+        dec = ~undef
+        t.count('lookalike_analyses')
+        t.count('oracle_entries', int(dec.sum()))
+        info = dict(case=case, history=list(log), classes=vals, class_array=label)
+        cnt = np.asarray(obj.counters)
+        exp_cnt = [int((data[:, 0] == v).sum()) for v in vals]
+        t.check(cnt.reshape(-1).astype(int).tolist() == exp_cnt, 'declared_value_not_counted_in_its_class', lambda: dict(info, counted=cnt.reshape(-1).tolist(), expected=exp_cnt))
+        tol.compare_tol(t, np.where(dec, got, 0), np.where(dec, val, 0), tol.C_E * tol.eps_of('float64') * scale, 'result_depends_on_earlier_analyses', info, undecidable_above=tol.UNDECIDABLE_E)
+    return t.result(sig=f"look|{case['sub']}", sample=dict(case=case, history=log))
+
+
+def _tdpa_gap(t, case, rng):
+    """Template-DPA matching with a class list that has gaps: a hypothesis value lying between two declared classes is not declared.
+    Either the batch is refused, or those traces take no part; they are never matched against the template of another value."""
+    K, T = int(rng.choice([3, 4, 6])), int(rng.integers(1, 4))
+    step = int(rng.choice([2, 3, 5]))
+    base0 = int(rng.integers(0, 20))
+    declared = [base0 + step * i for i in range(K)]
+    if rng.random() < 0.5:
+        declared = [declared[i] for i in rng.permutation(K)]
+    means = rng.integers(-30, 31, (K, T)) * 4
+    per = T + 8
+    bvals = np.repeat(np.array(declared), per)
+    bs = means[np.repeat(np.arange(K), per)] + np.round(rng.normal(0, 6, (K * per, T)))
+    pp = rng.permutation(K * per)
+    build = dict(samples=bs[pp].tolist(), values=bvals[pp].tolist(), dtype='float64', vdtype='uint8')
+    n, G = int(rng.choice([5, 30])), int(rng.integers(2, 5))
+    spec = dict(name='tdpa', precision='float64', partitions=declared, build=build, guesses=G)
+    data = rng.choice(declared, (n, G, 1)).astype('uint8')
+    traces = (means[rng.integers(0, K, n)] + rng.normal(0, 6, (n, T))).astype('float64')
+    inside = [v for v in range(min(declared) + 1, max(declared)) if v not in set(declared)]
+    bad_rows = sorted(set(rng.integers(0, n, int(rng.integers(1, 4))).tolist()))
+    d_bad = data.copy()
+    for r in bad_rows:
+        d_bad[r, int(rng.integers(G)), 0] = int(rng.choice(inside))
+    info = dict(case=case, declared=declared, undeclared_inside=inside[:6], rows_with_undeclared=bad_rows, n=n, guesses=G)
+    a = subjects.make(spec)
+    t.count('template_dpa_gap_cases')
+    try:
+        a.update(traces, d_bad)
+        sa = np.asarray(a.compute(), dtype=float).ravel()
+    except Exception as e:
+        t.count('undeclared_hypothesis_refused')
+        t.check(type(e).__name__ in ('DistinguisherError', 'ValueError'), 'undeclared_hypothesis_fails_unexpectedly', lambda: dict(info, error=repr(e)[:200]))
+        return t.result(sig=f"tdpagap|{K}|{T}|{n}|{G}", sample=dict(info, outcome='refused'))
+    keep = [r for r in range(n) if r not in bad_rows]
+    b = subjects.make(spec)
+    b.update(traces[keep], data[keep])
+    sb = np.asarray(b.compute(), dtype=float).ravel()
+    t.count('undeclared_hypothesis_accepted')
+    t.check(sa.shape == sb.shape and bool(np.all(np.abs(sa - sb) <= 1e-7 * (1 + np.abs(10 - sb)))), 'undeclared_hypothesis_value_matched_against_another_class',
+            lambda: dict(info, scores=sa.tolist(), scores_without_those_traces=sb.tolist()))
+    return t.result(sig=f"tdpagap|{K}|{T}|{n}|{G}", sample=dict(info, outcome='accepted'))
+
+
 def run_case(case):
     t = core.Tally()
     for c in REQUIRED_COUNTERS:
         t.count(c, 0)
     rng = gen.rng_of(case['sub'])
+    if case['gen'] == 'many':
+        return _many_classes(t, case, rng)
+    if case['gen'] == 'lookalike':
+        return _lookalike(t, case, rng)
+    if case['gen'] == 'tdpa_gap':
+        return _tdpa_gap(t, case, rng)
     name, rel = case['subject'], case['rel']
     if name in ('tstatic', 'tdpa'):
         return _template_perm(t, case, rng)
